@@ -96,18 +96,32 @@ class Lock:
 
 
 def run(cmd, cwd=None, env=None, timeout=None, check=False):
+    """Run a command in its own process group, output captured through a file (not a pipe: a process the command leaves
+    behind - e.g. a service shell that a changed zinoma failed to kill - would keep a pipe open and block us), and kill
+    whatever is left of the group afterwards."""
+    import signal, tempfile
     e = dict(os.environ)
     if env:
         e.update(env)
-    try:
-        p = subprocess.run(cmd, cwd=cwd, env=e, timeout=timeout, stdout=subprocess.PIPE, stderr=subprocess.STDOUT,
-                           text=True, errors="replace")
-    except subprocess.TimeoutExpired as ex:
-        out = ex.stdout if isinstance(ex.stdout, str) else (ex.stdout or b"").decode(errors="replace")
-        return 124, out
-    if check and p.returncode != 0:
-        raise ToolError("command failed (%d): %s\n%s" % (p.returncode, " ".join(cmd), p.stdout[-3000:]))
-    return p.returncode, p.stdout
+    with tempfile.TemporaryFile(dir=os.path.join(CACHE, "scratch")) as tf:
+        p = subprocess.Popen(cmd, cwd=cwd, env=e, stdout=tf, stderr=subprocess.STDOUT, stdin=subprocess.DEVNULL, start_new_session=True)
+        try:
+            rc = p.wait(timeout=timeout)
+        except subprocess.TimeoutExpired:
+            rc = 124
+        try:
+            os.killpg(p.pid, signal.SIGKILL)
+        except (ProcessLookupError, PermissionError):
+            pass
+        try:
+            p.wait(timeout=10)
+        except subprocess.TimeoutExpired:
+            pass
+        tf.seek(0)
+        out = tf.read().decode(errors="replace")
+    if check and rc != 0:
+        raise ToolError("command failed (%d): %s\n%s" % (rc, " ".join(cmd), out[-3000:]))
+    return rc, out
 
 
 ZV_CAP1 = os.path.join(BUILD, "harness_cap1", "debug", "zv")
